@@ -227,7 +227,7 @@ fn body_sweep_alpha(ctx: &mut Ctx, alpha: Alpha, upto: usize, idx: &mut u64) {
     let mut g = Gen::new(alpha);
     for size in 1..=upto {
         let mut todo = vec![];
-        let mut flush = |ctx: &mut Ctx, todo: &mut Vec<(Ast, u64)>| {
+        let flush = |ctx: &mut Ctx, todo: &mut Vec<(Ast, u64)>| {
             for (b, i) in todo.drain(..) {
                 ctx.count("bodies", 1);
                 let Some(an) = analyse(&b) else {
